@@ -140,7 +140,7 @@ func genCase(t *rapid.T) hcase {
 	offg := rapid.OneOf(gen.Int64Mix(), gen.Near(int64(time.Millisecond), 2), gen.Near(-int64(time.Millisecond), 2),
 		rapid.Int64Range(-int64(time.Second), int64(time.Second)), rapid.Int64Range(-int64(100*time.Microsecond), int64(100*time.Microsecond)),
 		rapid.Int64Range(-int64(time.Hour), int64(time.Hour)))
-	wg := rapid.OneOf(rapid.SampledFrom([]float64{0, 1, 3, math.Nextafter(3, 4), 49.9, 50, 149.9, 150, 1e6, math.Inf(1)}), rapid.Float64Range(0, 200), rapid.Float64Range(3.5, 1000))
+	wg := rapid.OneOf(rapid.SampledFrom([]float64{0, 1, 3, math.Nextafter(3, 4), 49.9, 50, 149.9, 150, 1e6, math.Inf(1), math.Inf(-1), math.NaN(), -1, math.Copysign(0, -1)}), rapid.Float64Range(0, 200), rapid.Float64Range(3.5, 1000))
 	for i := 0; i < n; i++ {
 		c.U = append(c.U, update{
 			Dt: dtg.Draw(t, "dt"), Offset: offg.Draw(t, "offset"), Weight: wg.Draw(t, "weight"),
@@ -150,7 +150,7 @@ func genCase(t *rapid.T) hcase {
 	return c
 }
 
-var rec = ev.New("c19/pll", "rapid state histories: 1..60 updates (dt from {0, 1 us, 0.4 s, 1 s, 1 s+1 ns, 2 s, 2 s+1 ns, 6 s, 6 s+1 ns, 64 s, 301 s, 1e5 s} and ranges; offset from an int64 mixture dense at +-1 ms; weight from {0,1,3,nextafter(3),49.9,50,149.9,150,1e6,+Inf} and ranges), external epoch changes at any point, clock whose Step does / does not bump the epoch; clock readings non-decreasing. The real Pll drives a recording fake clock. Oracle (from the statement): a step only > 2 s after the first update of the clock epoch, weight > 3, |offset| > 1 ms, by exactly the offset, at most one per epoch and never after slewing began in that epoch; every adjustment has duration = ceil(elapsed s) > 0, |slew| <= 500 ppm x duration, finite frequency, and none before the step phase of a (re)started start-up sequence could have passed. One evaluation = one history. Non-trivial: history that reaches tracking with a clamped slew, or with an epoch change while tracking; distinct by history hash")
+var rec = ev.New("c19/pll", "rapid state histories: 1..60 updates (dt from {0, 1 us, 0.4 s, 1 s, 1 s+1 ns, 2 s, 2 s+1 ns, 6 s, 6 s+1 ns, 64 s, 301 s, 1e5 s} and ranges; offset from an int64 mixture dense at +-1 ms; weight from {0,-0,-1,1,3,nextafter(3),49.9,50,149.9,150,1e6,+Inf,-Inf,NaN} and ranges), external epoch changes at any point, clock whose Step does / does not bump the epoch; clock readings non-decreasing. The real Pll drives a recording fake clock. Oracle (from the statement): a step only > 2 s after the first update of the clock epoch, weight > 3, |offset| > 1 ms, by exactly the offset, at most one per epoch and never after slewing began in that epoch; every adjustment has duration = ceil(elapsed s) > 0, |slew| <= 500 ppm x duration, finite frequency, and none before the step phase of a (re)started start-up sequence could have passed. One evaluation = one history. Non-trivial: history that reaches tracking with a clamped slew, or with an epoch change while tracking; distinct by history hash")
 
 func TestPropPLL(t *testing.T) {
 	vt.Check(t, 150000, 600000, func(t *rapid.T) {
@@ -188,8 +188,12 @@ func wireSafe(us []update) []update {
 	out := make([]update, len(us))
 	copy(out, us)
 	for i := range out {
-		if math.IsInf(out[i].Weight, 0) {
+		if math.IsInf(out[i].Weight, 1) {
 			out[i].Weight = math.MaxFloat64
+		} else if math.IsInf(out[i].Weight, -1) {
+			out[i].Weight = -math.MaxFloat64
+		} else if math.IsNaN(out[i].Weight) {
+			out[i].Weight = -12345.678 // stands for NaN in samples and hashes
 		}
 	}
 	return out
